@@ -1278,6 +1278,10 @@ func (s *Scanner) switchToComment() {
 	if s.annotation != annotationNone && s.annotation != annotationInline {
 		panic(s.newJSchemaErrorAtCharacter("inside user inline comment"))
 	}
+	if s.annotation == annotationInline && s.stack.Len() != 0 && s.stack.Peek().Type() != lexeme.InlineAnnotationBegin {
+		// The comment ends the inline annotation, its rules have to be complete by then.
+		panic(s.newJSchemaErrorAtCharacter("inside the rules of inline annotation"))
+	}
 	s.returnToStep.Push(s.step)
 	s.step = stateAnyCommentStart
 }
